@@ -410,7 +410,10 @@ class Runner:
             self.record(f"r:{sid}", sid, status)
             self.tag("revert")
         else:
-            status, _ = self.call(lambda: st.revert(torch.tensor(mask, dtype=torch.bool)))
+            # the subset is "True <=> revert" in any numeric type the code converts with `.to(torch.bool)`
+            dt = self.rng.choice([torch.bool, torch.bool, torch.uint8, torch.int64, torch.int32, torch.float32])
+            self.tag("mask-" + str(dt).replace("torch.", ""))
+            status, _ = self.call(lambda: st.revert(torch.tensor([int(b) for b in mask]).to(dt)))
             self.record(f"rp:{sid}:{''.join('1' if b else '0' for b in mask)}", sid, status)
             self.tag("revert-partial")
         if had_fork and status != "ok":
@@ -747,7 +750,7 @@ class RealOracle:
                         self.fails.append(f"[{ctx}] '{var}' differs from its value before the rejected proposal")
                 elif kind == "ind-partial":
                     rejected = torch.tensor([rng.random() < 0.5 for _ in range(self.n_ind)])
-                    st.revert(rejected)
+                    st.revert(rejected.to(rng.choice([torch.bool, torch.bool, torch.uint8, torch.int64, torch.float32])))
                     want = torch.where(rejected.reshape((-1,) + (1,) * (old.ndim - 1)), old, prop)
                     if not values_equal(torch, st[var], want):
                         self.fails.append(f"[{ctx}] '{var}' is not old-on-rejected / proposed-on-accepted after the partial revert")
